@@ -99,18 +99,46 @@ Proof.
 Qed.
 Print Assumptions generated_interpolator_fields.
 
-(* only InterExtra - and, once it stores its coefficients (shape checked by the translator), Polynominal -
-   override the generic to_dict of JSONSerializableClass *)
+(* exactly InterExtra and Polynominal override the generic to_dict of JSONSerializableClass *)
 Theorem generated_class_overrides :
-  (let ov := map (fun x => fst (fst x)) (filter (fun x => snd (fst x)) fluid_classes) in
-   existsb (String.eqb "FluidPropertyInterExtra") ov
-   && forallb (fun c => existsb (String.eqb c) ["FluidPropertyInterExtra"; "FluidPropertyPolynominal"]) ov) = true
+  map (fun x => fst (fst x)) (filter (fun x => snd (fst x)) fluid_classes)
+    = ["FluidPropertyInterExtra"; "FluidPropertyPolynominal"]
   /\ forallb (fun c => existsb (fun x => String.eqb (fst (fst x)) (class_name c)) fluid_classes)
              [CConst; CLinear; CInterExtra; CPoly; CSuth] = true
   /\ existsb (String.eqb "pandapipesNet") registry_names = true
   /\ existsb (String.eqb "MultiNet") registry_names = true.
 Proof. vm_compute. repeat split; reflexivity. Qed.
 Print Assumptions generated_class_overrides.
+
+(* Polynominal: the stored extra field(s) are exactly those from_dict pops (checked by the translator) and the model's;
+   the poly1d objects themselves are excluded from the dict *)
+Theorem generated_polynominal_fields :
+  poly_fields = getter_fields_of CPoly /\ In "prop_getter" poly_excludes /\ In "prop_int_getter" poly_excludes.
+Proof. vm_compute. auto 10. Qed.
+Print Assumptions generated_polynominal_fields.
+
+(* bounded interpolation: the non-string fill value is written as null and the keyword omitted on load
+   (recognised in the source), and that codec of the fill rule is a bijection *)
+Theorem generated_bounded_fill_codec : inter_fill_none_codec = true /\ forall f, dec_fill (enc_fill f) = Some f.
+Proof. split; [reflexivity|exact fill_roundtrip_lemma]. Qed.
+Print Assumptions generated_bounded_fill_codec.
+
+(* every property class - with or without extra stored fields - comes back as the same class with the same
+   attribute / extra-field split; classes without extra fields keep every field as an attribute *)
+Theorem property_roundtrip_every_class : forall (L E : Type) (lenc : L -> E) (ldec : E -> option L) (quant : L -> L),
+  (forall v, ldec (lenc v) = Some (quant v)) ->
+  forall p, wf_prop L p = true -> dec_prop L E ldec (enc_prop L E lenc p) = Some (q_prop L quant p).
+Proof. exact dec_enc_prop. Qed.
+Print Assumptions property_roundtrip_every_class.
+
+(* a well-formed document never fails to load (no `roundtrip raises`) *)
+Theorem roundtrip_total : forall (L E : Type) (lenc : L -> E) (ldec : E -> option L) (quant : L -> L)
+    (known_component : string -> bool),
+  (forall v, ldec (lenc v) = Some (quant v)) ->
+  forall d, wf_doc L known_component d = true ->
+  decode L E ldec known_component (encode L E lenc d) <> None.
+Proof. intros L E lenc ldec quant kc H d W. rewrite (roundtrip_lemma L E lenc ldec quant kc H d W). discriminate. Qed.
+Print Assumptions roundtrip_total.
 
 (* ---- the hypotheses are satisfiable: a concrete leaf codec and a document with every value kind ---- *)
 Definition ex_quant (s : string) : string := match s with String c _ => String c "" | EmptyString => "" end.
@@ -119,6 +147,7 @@ Definition ex_doc : doc string :=
    ("_pit", VLeaf string "internal");
    ("fluid", VFluid string [("name", "water")]
       [("density", {| p_class := CInterExtra; p_attrs := []; p_getter := [("x", "xs"); ("y", "ys"); ("_fill_value_orig", "extrapolate")] |});
+       ("heat_capacity", {| p_class := CPoly; p_attrs := []; p_getter := [("coefficients", "c2 c1 c0")] |});
        ("viscosity", {| p_class := CConst; p_attrs := [("value", "1e-3"); ("warn_dependent_variables", "False")]; p_getter := [] |})]);
    ("std_types", VStd string [("pipe", [("80_GGG", StdDict string [("inner_diameter_mm", "80")])]);
                               ("pump", [("P1", StdPump string [("reg_par", "coefs")])])]);
